@@ -252,6 +252,46 @@ def part_fixed(ctx):
       check_source(ctx, src, "F", {"kind": "src", "src": src})
 
 
+TRY_BODIES = ["return G", "return x", "return 1", "return x.a", "return x[0]",
+              "return -x", "return x()", "return (x, G)", "x", "G", "x.a", "x()",
+              "pass", "raise", "raise E", "y = G", "y = x.a", "del x", "x += 1",
+              "yield x", "return (yield)", "await x", "return await x",
+              "import m", "assert x", "break", "continue",
+              "G.a = x", "x[0] = G", "return G if x else 1"]
+TRY_HANDLERS = ["except E:\n{i}  return None",
+                "except E as e:\n{i}  return e",
+                "except:\n{i}  pass",
+                "finally:\n{i}  G()",
+                "except E:\n{i}  pass\n{i}else:\n{i}  return 2",
+                "except E:\n{i}  raise\n{i}finally:\n{i}  G()",
+                "except* E:\n{i}  pass",
+                "except (A, B) as e:\n{i}  del e"]
+TRY_CONTEXTS = ["def f(x):\n{b}",
+                "async def f(x):\n{b}",
+                "def f(x):\n  for x in G:\n{b2}",
+                "def f(x):\n  with G as x:\n{b2}",
+                "def f(x):\n  while x:\n{b2}\n  return x",
+                "class K:\n  def m(self, x):\n{b2}"]
+
+
+def part_small_try(ctx):
+  """Every small try statement: a one-statement body (single instruction or
+  not) x handler shape x surrounding construct."""
+  k = 0
+  for ctxt in TRY_CONTEXTS:
+    for body in TRY_BODIES:
+      for h in TRY_HANDLERS:
+        k += 1
+        if k % ctx.nshards != ctx.shard:
+          continue
+        deep = "{b2}" in ctxt
+        ind = "    " if deep else "  "
+        block = "%stry:\n%s  %s\n%s%s" % (ind, ind, body, ind,
+                                          h.replace("{i}", ind))
+        src = ctxt.replace("{b2}" if deep else "{b}", block) + "\n"
+        check_source(ctx, src, "T", {"kind": "src", "src": src})
+
+
 def corpus(limit, max_bytes):
   files = sorted(glob.glob(os.path.join(STDLIB, "**", "*.py"), recursive=True))
   files = [f for f in files if "/test/" not in f and "/tests/" not in f and
@@ -284,6 +324,7 @@ def run_shard(ctx):
   boot.ensure()
   sys.setrecursionlimit(10000)
   part_fixed(ctx)
+  part_small_try(ctx)
   if ctx.quick():
     part_generated(ctx, 60)
     part_mutants(ctx, 60)
